@@ -78,7 +78,9 @@ func (q *queueMPSC) Push(value any) bool {
 		value: value,
 	}
 	atomic.AddInt64(&q.length, 1)
+	VerifPoint("mpsc.push.swap", q)
 	old_head := (*itemMPSC)(atomic.SwapPointer((*unsafe.Pointer)(unsafe.Pointer(&q.head)), unsafe.Pointer(i)))
+	VerifPoint("mpsc.push.swapped", q)
 	atomic.StorePointer((*unsafe.Pointer)(unsafe.Pointer(&old_head.next)), unsafe.Pointer(i))
 	return true
 }
@@ -96,7 +98,9 @@ func (q *queueLimitMPSC) Push(value any) bool {
 		value: value,
 	}
 	atomic.AddInt64(&q.length, 1)
+	VerifPoint("mpsc.push.swap", q)
 	old_head := (*itemMPSC)(atomic.SwapPointer((*unsafe.Pointer)(unsafe.Pointer(&q.head)), unsafe.Pointer(i)))
+	VerifPoint("mpsc.push.swapped", q)
 	atomic.StorePointer((*unsafe.Pointer)(unsafe.Pointer(&old_head.next)), unsafe.Pointer(i))
 	return true
 }
